@@ -29,7 +29,11 @@ def run(ctx):
         'R5 the per-iteration summary that feeds the next distribution reads '
         'whole result sets: no loop variable of the orificing module is read '
         'after its loop has ended (a stale per-timestep / per-group value '
-        'standing in for the collection)']
+        'standing in for the collection)',
+        'R6 the distributed flows reach the assemblies they were computed '
+        'for: every store into the Assignment of the next input is indexed '
+        'by the assembly-id column of the row the value was taken from '
+        '(group_data[., 0] / _ng_power[., 0]), never by the row number']
     ctx.not_decided += ['partition / ordering / sum as numbers', 'convergence '
                         'of the fixed-point iteration']
     r1(ctx)
@@ -38,6 +42,8 @@ def run(ctx):
     r4(ctx)
     r5(ctx)
     ctx.min_instances('C20.R5', 10)
+    r6(ctx)
+    ctx.min_instances('C20.R6', 2)
     ctx.min_instances('C20.R1', 5)
     ctx.min_instances('C20.R2', 4)
     ctx.min_instances('C20.R3', 6)
@@ -641,3 +647,44 @@ def r5(ctx):
         raise AnalysisError('C20.R5 positive example not detected: the rule '
                             'went blind')
     ctx.ok('C20.R5', 'synthetic positive example', None, 'detected')
+
+
+# ---------------------------------------------------------------------------
+# R6: flows are written to the position of their own assembly
+
+def r6(ctx):
+    fi = ctx.repo.func('orificing', 'Orificing._setup_input_orifice')
+    n = 0
+    for t, st in U.stores(fi.node):
+        sub = None
+        x = t
+        while isinstance(x, ast.Subscript):
+            if isinstance(x.value, ast.Subscript) and const(
+                    x.value.slice) == 'ByPosition':
+                sub = x
+            x = x.value
+        if sub is None or not isinstance(st, ast.Assign):
+            continue
+        n += 1
+        idx = U.value_at(fi.node, sub.slice, st.lineno)
+        txt = ' '.join(src(idx).split())
+        lps = [l for l in U.enclosing_loops(st) if isinstance(l, ast.For)
+               and isinstance(l.target, ast.Name)]
+        row = lps[0].target.id if lps else None
+        ok = row is not None and any(
+            p_ in txt for p_ in (
+                'self.group_data[:, 0].astype(int)[%s]' % row,
+                'self.group_data[%s, 0]' % row,
+                'self._ng_power[%s, 0]' % row))
+        # the value comes from the same row
+        vnames = {x_.id for x_ in ast.walk(st.value)
+                  if isinstance(x_, ast.Name)}
+        ctx.require(ok, 'C20.R6', fi, st,
+                    'the flow is written to ByPosition[%s]: the position must '
+                    'be the assembly id stored in column 0 of the row the '
+                    'flow belongs to, not the row number (rows and ids differ '
+                    'as soon as an ungrouped assembly sits at a lower '
+                    'position)' % txt[:80],
+                    key='%s | position index %d' % (fi.full, n))
+    if n < 2:
+        raise AnalysisError('_setup_input_orifice: stores into ByPosition')
